@@ -21,6 +21,21 @@ static cif_value_tp *mk(char **argv, int argc, int *pos) {
         if (cif_value_parse_numb(v, txt) != CIF_OK) { free(txt); cif_value_free(v); return NULL; }
         return v;
     }
+    if (!strcmp(t, "{")) {
+        /* a table: { <key-hex> <shape> … } */
+        cif_value_create(CIF_TABLE_KIND, &v);
+        while (*pos < argc && strcmp(argv[*pos], "}")) {
+            UChar *k = NULL;
+            cif_value_tp *e;
+            if (!unhex(argv[(*pos)++], &k, NULL) || !k) { cif_value_free(v); return NULL; }
+            e = mk(argv, argc, pos);
+            if (!e || cif_value_set_item_by_key(v, k, e) != CIF_OK) { free(k); cif_value_free(e); cif_value_free(v); return NULL; }
+            free(k); cif_value_free(e);
+        }
+        if (*pos >= argc) { cif_value_free(v); return NULL; }
+        (*pos)++;
+        return v;
+    }
     if (!strcmp(t, "[")) {
         cif_value_create(CIF_LIST_KIND, &v);
         while (*pos < argc && strcmp(argv[*pos], "]")) {
@@ -124,7 +139,7 @@ static void handle(int argc, char **argv) {
             if (n != (size_t) ((full ? 4 : 1) + (rc == CIF_OK ? 1 : 0) + 6)) OUT(" size=%zu", n);
         }
         cif_value_free(filler); cif_value_free(e); cif_value_free(lst);
-    } else if (argc == 4 && (!strcmp(argv[1], "names") || !strcmp(argv[1], "namesfixed"))) {
+    } else if (argc == 4 && (!strcmp(argv[1], "names") || !strcmp(argv[1], "namesfixed") || !strcmp(argv[1], "namesnorm"))) {
         /* cif_loop_get_names on a stored loop with n item names _a0 … (SQLite's own allocations are not wrapped here) */
         int n = atoi(argv[2]), i;
         cif_tp *cif = NULL;
@@ -138,7 +153,7 @@ static void handle(int argc, char **argv) {
         if (cif_create(&cif) != CIF_OK || cif_create_block(cif, code, &blk) != CIF_OK
                 || cif_container_create_loop(blk, NULL, names, &loop) != CIF_OK) OUT("setup-failed ");
         verif_arm(0, atol(argv[3]));
-        ARM(); rc = loop ? cif_loop_get_names(loop, &got) : -98; DISARM();
+        ARM(); rc = !loop ? -98 : !strcmp(argv[1], "namesnorm") ? cif_loop_get_names_internal(loop, &got, CIF_TRUE) : cif_loop_get_names(loop, &got); DISARM();
         summary(rc);
         if (rc == CIF_OK && got) { for (i = 0; got[i]; i++) free(got[i]); if (i != n) OUT(" !NAMES%d", i); free(got); }
         if (loop) cif_loop_free(loop);
@@ -202,11 +217,12 @@ static void handle(int argc, char **argv) {
         buffer_tp *buf = NULL;
         pos = 2;
         v = mk(argv, argc, &pos);
-        if (!v || pos != argc - 1 || cif_value_kind(v) != CIF_LIST_KIND) { OUT("bad-op"); cif_value_free(v); return; }
+        if (!v || pos != argc - 1 || (cif_value_kind(v) != CIF_LIST_KIND && cif_value_kind(v) != CIF_TABLE_KIND)) { OUT("bad-op"); cif_value_free(v); return; }
         if (cif_value_serialize(v, &buf) != CIF_OK || !buf || cif_value_create(CIF_UNK_KIND, &dest) != CIF_OK) { OUT("setup-failed"); cif_value_free(v); return; }
         verif_arm(0, atol(argv[pos]));
         ARM(); rc = cif_value_deserialize(buf->for_writing.start, buf->for_writing.limit, dest); DISARM();
         summary(rc);
+        OUT(" code=%d", rc);                 /* which of the two permitted failure codes: part of the model here */
         {
             char *a = NULL, *b = NULL; size_t sa = 0, sb = 0;
             FILE *fa = open_memstream(&a, &sa), *fb = open_memstream(&b, &sb);
